@@ -296,7 +296,9 @@ def build(spec, da=None, attrs=None):
         a.values = vals
         a.axes = [da.Axis(label_array(l), d) for l, d in zip(labels, dims)]
         if a.values.dtype != vals.dtype:
-            env.harness_error("copyof build changed the dtype: %r -> %r" % (vals.dtype, a.values.dtype))
+            # the public values setter widens as documented (int <- float gives float64): anything else is the library's doing
+            raise Violation("history-build-changed-dtype", {"what": "b = other.copy(shallow=True); b.values = <%s data> on %s data" % (vals.dtype, ov.dtype),
+                                                            "got": str(a.values.dtype), "expected": str(vals.dtype)}, sig={"op": "build"})
     elif mode == "transposed":
         parent = da.DimArray(np.ascontiguousarray(vals.transpose()), axes=[da.Axis(label_array(l), d) for l, d in zip(labels[::-1], dims[::-1])])
         warm(parent, da)
@@ -308,7 +310,8 @@ def build(spec, da=None, attrs=None):
     if mode != "none":
         # a history must never change what the array *is*: guard the harness itself
         if tuple(a.dims) != tuple(dims) or a.values.shape != vals.shape:
-            env.harness_error("history-laden build changed dims/shape: %r" % (spec,))
+            raise Violation("history-build-changed-shape", {"what": "history mode %s" % mode, "got_dims": list(a.dims), "got_shape": list(a.values.shape),
+                                                            "expected_dims": list(dims), "expected_shape": list(vals.shape)}, sig={"op": "build"})
     for k in list(a.attrs.keys()):
         del a.attrs[k]
     if spec.get("attrs"):
